@@ -272,6 +272,17 @@ pub fn grow_alphabet(n: usize, len: usize) -> Vec<Act> {
             }
         }
     }
+    // leaking a drain is a legal step of a history too (documented); what is left is unspecified, so
+    // the state it leads to is whatever the implementation leaves behind
+    for (a, b) in [(0, len), (0, len.min(1)), (len / 2, len), (len.min(1), len)] {
+        if a <= b {
+            v.push(Drain(Rs::half_open(a, b), Script::empty(), Fin::Forget));
+            if b > a {
+                v.push(Drain(Rs::half_open(a, b), Script::all_front(1), Fin::Forget));
+                v.push(Drain(Rs::half_open(a, b), Script::all_back(1), Fin::Forget));
+            }
+        }
+    }
     for acc in ACCS {
         match acc {
             Acc::FrontMut | Acc::BackMut => v.push(WriteVia(acc, 0)),
